@@ -222,7 +222,7 @@ struct ApiWorld : World {
         auto query_op = [&](int d) {
             Json q = mk("query");
             static const std::vector<std::string> what = { "hyp", "seg", "seg_abandon", "seg_free_first", "lattice", "nbest", "nbest_abandon", "align", "align_twice", "json0", "json1", "json2", "prob",
-                                                           "n_frames", "times", "get_cmn", "get_cmn_update", "lookup" };
+                                                           "n_frames", "times", "get_cmn", "get_cmn_update", "lookup", "config_churn" };
             q.set("what", r.pick(what));
             q.set("k", (long long)r.below(6));
             push(q, d);
@@ -476,6 +476,22 @@ struct ApiWorld : World {
                 } else if ((what == "lattice" || what == "nbest" || what == "nbest_abandon") && s.d->search &&
                            fsg_history_n_entries(((fsg_search_t *)s.d->search)->history) > 25000) {
                     out.probes["lat.skipped_too_many_word_exits"]++; // (lattice construction time is out of scope, see world_dec.cc)
+                } else if (what == "config_churn") {
+                    // a configuration object of its own: string values set, overwritten, cleared and set again, then freed
+                    config_t *c = L(config_init(NULL));
+                    static const char *keys[] = { "hmm", "dict", "fdict", "jsgf", "fsg", "toprule", "cmninit", "featparams", "mdef", "loglevel" };
+                    Rng cr((uint64_t)op.geti("k", 0) * 7919 + (uint64_t)opi);
+                    for (int q = 0; q < 12; ++q) {
+                        const char *key = keys[cr.below(10)];
+                        switch (cr.below(4)) {
+                        case 0: L(config_set_str(c, key, "/some/where/long/enough/to/matter")); break;
+                        case 1: L(config_set_str(c, key, "x")); break;
+                        case 2: L(config_set_str(c, key, NULL)); break;
+                        default: L(config_str(c, key));
+                        }
+                    }
+                    L(config_free(c));
+                    out.probes["api.config_churn"]++;
                 } else if (what == "lattice") {
                     lattice_t *dag = L(decoder_lattice(s.d));
                     out.events.i64(dag ? dag->n_nodes : -1);
